@@ -1767,6 +1767,18 @@ class StateEngine(object):
         That the methods are prefixed with "asl_state_" is a mitigation against
         accidentally or deliberately placing an invalid State type in the ASL.
         """
+        def terminated_before_delegate():
+            """
+            The Task, Parallel and Map states do their work in a delegate that
+            runs from a timer after notify() has returned. A sibling branch may
+            fail in between, in which case this branch has been terminated and
+            its event released, so check again before doing any work.
+            """
+            return self.branch_has_terminated(
+                state_type, context, id,
+                ASL.get("TimeoutSeconds", self.execution_ttl)
+            )
+
         def asl_state_Pass():
             """
             https://states-language.net/spec.html#pass-state
@@ -1840,6 +1852,9 @@ class StateEngine(object):
             the event, state and id to be wrapped in its closure, to be used when
             the service integrated to the Task *actually* returns its result.
             """
+            if terminated_before_delegate():
+                return
+
             def on_response(result):
                 """
                 The use of the "errorType" field to report an error invoking a
@@ -2594,6 +2609,9 @@ class StateEngine(object):
             The Parallel state passes its input (potentially as filtered by the
             “InputPath” field) as the input to each branch’s “StartAt” state.
             """
+            if terminated_before_delegate():
+                return
+
             try:
                 input = apply_path(data, context, state.get("InputPath", "$"))
 
@@ -2751,6 +2769,9 @@ class StateEngine(object):
 
             The “InputPath” field operates as usual, selecting part of the raw input .
             """
+            if terminated_before_delegate():
+                return
+
             try:
                 input = apply_path(data, context, state.get("InputPath", "$"))
 
